@@ -18,6 +18,7 @@ import (
 	"context"
 	"encoding/json"
 	"fmt"
+	"sync"
 	"time"
 
 	"github.com/pkg/errors"
@@ -71,11 +72,15 @@ func (r *resourceLockManager) GetResourceLock() resourcelock.Interface {
 type resourceLock struct {
 	store       storage.KvStorage
 	lockConfig  resourcelock.ResourceLockConfig
-	record      resourcelock.LeaderElectionRecord
-	lastVal     []byte
 	electionKey []byte
-	tso         uint64
 	timeout     time.Duration
+
+	// mu guards record, lastVal and tso: the elector reads and renews the lock on goroutines of its own
+	// (a new one per attempt), while the leader callback and request handlers call Describe
+	mu      sync.Mutex
+	record  resourcelock.LeaderElectionRecord
+	lastVal []byte
+	tso     uint64
 }
 
 // Get implements resourcelock.Interface
@@ -92,7 +97,10 @@ func (r *resourceLock) Get() (*resourcelock.LeaderElectionRecord, error) {
 		return nil, err
 	}
 
-	return &r.record, nil
+	r.mu.Lock()
+	record := r.record
+	r.mu.Unlock()
+	return &record, nil
 }
 
 func (r *resourceLock) getRecord() (err error) {
@@ -106,12 +114,17 @@ func (r *resourceLock) getRecord() (err error) {
 		}
 		return err
 	}
-	r.lastVal = val
 	var record resourcelock.LeaderElectionRecord
 	if err := json.Unmarshal(val, &record); err != nil {
+		r.mu.Lock()
+		r.lastVal = val
+		r.mu.Unlock()
 		return err
 	}
+	r.mu.Lock()
+	r.lastVal = val
 	r.record = record
+	r.mu.Unlock()
 	return nil
 }
 
@@ -128,7 +141,9 @@ func (r *resourceLock) refreshTso(ctx context.Context) error {
 	if err != nil {
 		return err
 	}
+	r.mu.Lock()
 	r.tso = tso
+	r.mu.Unlock()
 	return nil
 }
 
@@ -146,14 +161,19 @@ func (r *resourceLock) Create(ler resourcelock.LeaderElectionRecord) error {
 	if err != nil {
 		return err
 	}
+	r.mu.Lock()
 	r.lastVal = lerBytes
+	r.mu.Unlock()
 	return r.refreshTso(context.Background())
 }
 
 // Update implements resourcelock.Interface
 func (r *resourceLock) Update(ler resourcelock.LeaderElectionRecord) error {
 	klog.V(8).Info("[resource lock] update lock")
-	if r.tso == 0 {
+	r.mu.Lock()
+	tso, lastVal := r.tso, r.lastVal
+	r.mu.Unlock()
+	if tso == 0 {
 		return errors.New("endpoint not initialized, call get or create first")
 	}
 
@@ -163,7 +183,7 @@ func (r *resourceLock) Update(ler resourcelock.LeaderElectionRecord) error {
 	}
 
 	batch := r.store.BeginBatchWrite()
-	batch.CAS(r.electionKey, recordBytes, r.lastVal, 0)
+	batch.CAS(r.electionKey, recordBytes, lastVal, 0)
 	ctx, cancel := r.genContext(context.Background())
 	defer cancel()
 	err = batch.Commit(ctx)
@@ -185,10 +205,13 @@ func (r *resourceLock) Identity() string {
 }
 
 func (r *resourceLock) Describe() string {
-	if len(r.record.HolderIdentity) > 0 {
-		return fmt.Sprintf("%s,%d", r.record.HolderIdentity, r.tso)
+	r.mu.Lock()
+	holder, tso := r.record.HolderIdentity, r.tso
+	r.mu.Unlock()
+	if len(holder) > 0 {
+		return fmt.Sprintf("%s,%d", holder, tso)
 	}
-	return fmt.Sprintf("empty,%d", r.tso)
+	return fmt.Sprintf("empty,%d", tso)
 }
 
 func (r *resourceLock) genContext(ctx context.Context) (newCtx context.Context, cancel func()) {
